@@ -1,7 +1,7 @@
 #!/bin/bash
 # usage: vt/seedtest.sh <ID> [tier] [extra check ids...]   -- confirm a seeded change and run our checks against it
 ID=$1; TIER=${2:-quick}; shift; shift
-WT=/tmp/wt-$ID; SD=/tmp/seed-$ID
+WT=/tmp/wt-$ID; SD=/tmp/seed-$ID; PROP=${ID%[a-z]}
 cd /verif
 echo "== demo on original tree"
 PYTHONPATH=/repo/src:/tmp/rmshim timeout 600 /venv/bin/python $SD/demo.py > $SD/demo-orig.log 2>&1; O=$?
@@ -12,7 +12,7 @@ echo "exit $M"; tail -3 $SD/demo-mut.log
 echo "== baseline tests with the change"
 (cd $WT && timeout 900 /venv/bin/python -m pytest -q -p no:cacheprovider --timeout=900 --continue-on-collection-errors 2>&1 | tail -1)
 rm -rf $WT/allmydata.test.* $WT/eliot.log 2>/dev/null
-for P in $ID "$@"; do
+for P in $PROP "$@"; do
   echo "== ./check $P $TIER against the change"
   VERIF_OUT=$SD/out VERIF_REPO_SRC=$WT/src VERIF_WORKERS=${VERIF_WORKERS:-10} timeout 3000 ./check $P $TIER > $SD/check-$P.log 2>&1; C=$?
   echo "check exit $C"; grep -h "^VIOLATION\|sig=" $SD/check-$P.log | head -6; tail -1 $SD/check-$P.log | cut -c1-300
